@@ -4,6 +4,7 @@ from . import procs
 from ..contracts import process as CP
 
 ID = "C05"
+FRAME_SENSITIVE = True        # the statement relates several calls / call histories: a certain write to state that outlives a call is a violation even where the engine cannot follow its effect
 MIN_OBLIGATIONS = 150
 
 
@@ -144,6 +145,8 @@ def obligations(cx):
     cx.assume_note("hypothesis of C05: fitted alpha > 0 (otherwise the Permeance clamp intervenes)")
     cx.assume_note("find_best_fit / Measurements.from_diffusion_curves_* / PervaporationFunction.__call__ / calculate_activation_energy by contract (pure functions; C16, C07, C12)")
     cx.assume_note("initial permeances are supplied in kg/(m2 h kPa) in the modelled configurations (conversion itself: C14)")
+    cx.no_hidden_state(function=None)
+
 
 
 def _cidx(f):
